@@ -37,6 +37,12 @@ func registerExtras(p *Program) {
 		}
 		return a[0]
 	}
+	I[verifPkg+".Time"] = func(ex *Exec, fr *frame, fn *ssa.Function, a []Value) Value {
+		label := constStr(a[0], "verif.Time label")
+		v := ex.FreshIntRange("in!"+label, year1Ns, year9999Ns)
+		ex.declareInput(v, v.S[3:])
+		return v
+	}
 	I[verifPkg+".Thorough"] = func(ex *Exec, fr *frame, fn *ssa.Function, a []Value) Value {
 		return BoolC(Tier == "thorough")
 	}
